@@ -25,8 +25,8 @@ lexed as one variable token (`parseVar_good`), variables are inert in `fold` lik
 fires without an operator, comma or parenthesis between them), and **no key over `{n,1,v}` is in the blacklist**
 (the table fact now covers the three classes).
 
-**Also proved (`sentence_not_sqli`, `sentence3_not_sqli`, `txt_not_sqli`): two of the three punctuated-sentence
-families.** `,` `?` and `: ` are tokens of their own classes; a word or number with a trailing dot is one bareword / one
+**Also proved (`sentence_not_sqli`, `sentence3_not_sqli`, `enumeration_not_sqli`, `ones_not_sqli`, `txt_not_sqli`): two of
+the three punctuated-sentence families and comma-separated enumerations of any length.** `,` `?` and `: ` are tokens of their own classes; a word or number with a trailing dot is one bareword / one
 number; among tokens of the classes `{n,1,v,',','?',':'}` the only fold rule that can fire is `x , y` (drop two
 tokens), which keeps the window benign; and **no key over these six classes is in the blacklist** (table fact).
 
@@ -188,6 +188,39 @@ theorem sentence3_not_sqli (w1 w2 w3 d : Bytes) (h1 : Word w1) (k1 : NotKeywordL
   have t3 := Txt.word (Or.inl g3) (Or.inr ⟨_, rfl⟩) (Txt.space t4)
   have t2 := Txt.wordAt g2 (show isSepByte 58 = true by decide) (Txt.colon t3)
   exact Txt.word (Or.inl g1) (Or.inr ⟨_, rfl⟩) (Txt.space t2)
+
+/-- items joined by `, ` -/
+def commaList : List Bytes → Bytes
+  | [] => []
+  | [x] => x
+  | x :: t => x ++ 44 :: 32 :: commaList t
+
+theorem txt_commaList : ∀ (xs : List Bytes), (∀ x ∈ xs, (Word x ∧ NotKeywordLike x) ∨ Num x) → Txt (commaList xs)
+  | [], _ => Txt.nil
+  | [x], h => by
+    rcases h x (by simp) with ⟨hword, hk1, hk2⟩ | hnum
+    · have := Txt.word (Or.inl ⟨hword, fun _ => hk1, fun _ => hk2⟩) (Or.inl rfl) Txt.nil
+      simpa [commaList] using this
+    · have := Txt.word (Or.inr hnum) (Or.inl rfl) Txt.nil
+      simpa [commaList] using this
+  | x :: x' :: t, h => by
+    have ih := txt_commaList (x' :: t) (fun y hy => h y (List.mem_cons_of_mem _ hy))
+    have rest : Txt (44 :: 32 :: commaList (x' :: t)) := Txt.punct (Or.inl rfl) (Txt.space ih)
+    rcases h x (by simp) with ⟨hword, hk1, hk2⟩ | hnum
+    · exact Txt.wordAt ⟨hword, fun _ => hk1, fun _ => hk2⟩ (by decide) rest
+    · exact Txt.numAt hnum (by decide) rest
+
+/-- **enumerations of any length**: words (no key, no start of a phrase) and unsigned integers joined by `, ` are never
+reported — the comma rule of `fold` (`x , y` drops two tokens) consumes the list as fast as it is read, however long -/
+theorem enumeration_not_sqli (xs : List Bytes) (h : ∀ x ∈ xs, (Word x ∧ NotKeywordLike x) ∨ Num x) :
+    isSQLi (commaList xs) = .ok (false, []) := isSQLi_txt _ (txt_commaList xs h)
+
+/-- in particular `1, 1, 1, …` with any number of items (a token or byte budget inside `fold` would cut such a list) -/
+theorem ones_not_sqli (n : Nat) : isSQLi (commaList (List.replicate n [49])) = .ok (false, []) :=
+  enumeration_not_sqli _ (fun x hx => by
+    have := (List.mem_replicate.mp hx).2
+    subst this
+    exact Or.inr ⟨by decide, by decide⟩)
 
 /-- non-vacuity: the conclusion on `hello, dear world.` and on `note to: self 42.` is what the kernel computes -/
 example : (match isSQLi (bs "hello, dear world.") with | .ok (false, []) => true | _ => false) = true := by
